@@ -483,6 +483,29 @@ def stack_level(ctx):
         ops = [dict(op='udp', s=0, v=4), dict(op='bind', s=0, addr='', port=5000),
                dict(op='fragmix', dgrams=dgs, order=order), dict(op='readall'), dict(op='readall')]
         scs.append(dict(nics=[NIC], ops=ops))
+    # maximal and near-maximal datagrams: IPv4 total length up to exactly 65535 (UDP data 65507), around the 8-byte
+    # fragment granularity, cut into fragments of 8 / 1480 / 32768 bytes, delivered in order, reversed and last-first
+    nbig = 0
+    for n in range(65499, 65508):
+        for fs in (8, 1480, 32768):
+            if fs == 8 and not ctx.thorough() and n < 65506:
+                continue
+            tot = 8 + n
+            cuts = list(range(fs, tot, fs))
+            nf = len(cuts) + 1
+            for oname in ('inorder', 'reversed', 'last-first'):
+                idx = list(range(nf))
+                if oname == 'reversed':
+                    idx.reverse()
+                elif oname == 'last-first':
+                    idx = [nf - 1] + idx[:-1]
+                d = dict(src='10.0.0.9', sport=7, dst='10.0.0.1', dport=5000, ipid=1 + (nbig * 7919) % 65000, n=n,
+                         seed=rng.randrange(1 << 24), cuts=cuts)
+                ops = [dict(op='udp', s=0, v=4), dict(op='bind', s=0, addr='', port=5000),
+                       dict(op='fragmix', dgrams=[d], order=[[0, j] for j in idx]), dict(op='readall'), dict(op='readall')]
+                scs.append(dict(nics=[NIC], ops=ops))
+                nbig += 1
+    ctx.extra['stack_level_maximal_datagrams'] = nbig
     sp = os.path.join(ctx.work, 'fragmix-scen.json')
     tp = os.path.join(ctx.work, 'fragmix-trace.ndjson')
     _v.write_json(sp, scs)
@@ -498,7 +521,8 @@ def stack_level(ctx):
     ctx.sample(dict(kind='stack-level-interleaving', dgrams=[{k: v for k, v in d.items() if k != 'seed'} for d in scs[0]['ops'][2]['dgrams']], order=scs[0]['ops'][2]['order'][:12]))
     for si, ln in rej:
         ev = segs[si][ln] if ln < len(segs[si]) else {}
-        ctx.violation('IPv4 reassembly through the stack: datagrams with different keys interleaved; socket results rejected by the P-spec at event %d (%s)' % (ln, ev.get('op')),
+        ctx.violation('IPv4 reassembly through the stack: datagrams with different keys interleaved; socket results rejected by the P-spec at event %d (%s); UDP data sizes %s, %s fragments' % (
+                          ln, ev.get('op'), [d['n'] for d in scs[si]['ops'][2]['dgrams']], [len(d['cuts']) + 1 for d in scs[si]['ops'][2]['dgrams']]),
                       dict(kind='fragmix', scenario=scs[si], events=[{k: v for k, v in e.items() if k != 'raw'} for e in segs[si][:ln + 1]]))
 
 
